@@ -344,6 +344,13 @@ def drive(r, spec, respond="random", faults=None, max_steps=80):
                 break
             calls = [c for c in v.reactor.getDelayedCalls()]
             waiting = v.proto.deferred is not None
+            lw = getattr(spec, "lose_when_last_waits", None)
+            if lw is not None and waiting and v.proto.screen is not None and ("start:%d" % (v.ncmds - 1)) in flat:
+                # the LAST command of the script is waiting for its update, the client already holds a screen from an earlier
+                # one - and now the server goes away
+                spec.events.append(("lose", bool(lw)))
+                note("lose-clean" if lw else "lose-error", v.lose(bool(lw)))
+                break
             choices = []
             if calls:
                 choices += ["fire", "fire"]
@@ -472,6 +479,7 @@ def drive(r, spec, respond="random", faults=None, max_steps=80):
 
 def gen_words(r, kinds, n, have_images, spec):
     words = []
+    pos = (0, 0)            # where the script has left the pointer
     for _ in range(n):
         k = r.choice(kinds)
         if k == "key":
@@ -479,13 +487,20 @@ def gen_words(r, kinds, n, have_images, spec):
         elif k == "type":
             words += ["type", r.choice(["hi", "x", "Hey"])]
         elif k == "move":
-            words += ["move", str(r.randrange(0, 40)), str(r.randrange(0, 40))]
+            pos = (r.randrange(0, 40), r.randrange(0, 40))
+            words += ["move", str(pos[0]), str(pos[1])]
         elif k == "click":
             words += ["click", str(r.randint(1, 3))]
         elif k == "mdown":
             words += [r.choice(["mdown", "mup"]), str(r.randint(1, 3))]
         elif k == "drag":
-            words += ["drag", str(r.randrange(0, 12)), str(r.randrange(0, 12))]
+            tgt = (r.randrange(0, 12), r.randrange(0, 12))
+            if r.random() < .25:
+                tgt = pos       # a drag of length zero: to where the pointer already is
+            elif r.random() < .2:
+                tgt = (pos[0] + r.choice([-1, 0, 1]), pos[1] + r.choice([0, 1])) if pos[0] > 0 else (pos[0] + 1, pos[1])
+            pos = tgt
+            words += ["drag", str(pos[0]), str(pos[1])]
         elif k == "pause":
             words += [r.choice(["pause", "sleep"]), r.choice(PAUSES)]
         elif k == "capture":
